@@ -57,7 +57,7 @@ def generate(seed: int, tier: str) -> Dict[str, Any]:
     rng = Rng(seed)
     r = rng.stream("gen")
     for _ in range(30):
-        lo, hi = r.choice([(-1.0, 1.0), (-0.5, 0.5), (0.0, 1.0), (-1.0, 0.0), (0.5, 1.0), (-0.2, 0.3), (0.1, 0.2)])
+        lo, hi = r.choice([(-1.0, 1.0), (-0.5, 0.5), (0.0, 1.0), (-1.0, 0.0), (0.5, 1.0), (-0.2, 0.3), (0.1, 0.2), (-1.0, float("inf")), (float("-inf"), 1.0), (-1e308, 1e308)])
         graph = {"enabled": True, "coactivation_threshold": r.choice([0.0, 0.2, 0.5, 1.0]), "observe_top_k": r.choice([1, 2, 3, 64]),
                  "pair_cap_per_obs": r.choice([0, 1, 2, 2048]),
                  "update": {"mode": r.choice(["additive", "proportional"]), "alpha": r.choice([0.02, 0.3, 0.7, 1.5, 1e308, float("inf")]), "clamp_min": lo, "clamp_max": hi},
